@@ -35,3 +35,22 @@ package matrix
 //@   ensures [C20,C12] left-inverse: forall r int, c int :: 0 <= r && r < 3 && 0 <= c && c < 3 ==> result[0][r]*m[c][0] + result[1][r]*m[c][1] + result[2][r]*m[c][2] == ite(r == c, 1.0, 0.0)
 
 //@ lemma [C20] mulm-assoc-v mode=real (a Matrix3, b Matrix3, v Vector3): same(a.MulM(b).MulV(v), a.MulV(b.MulV(v)))
+
+// Exactly singular matrices built from repeated or zero columns: the determinant the code
+// computes is exactly 0 in floating point (a + (-a) + 0), so Inverse panics instead of
+// returning a matrix. Rounding-operator model: rounding is odd and fixes 0.
+//@ func Matrix3.Inverse
+//@   mode rnd
+//@   scenario repeated01 repeated02 repeated12 zero0 zero1 zero2
+//@   requires case=repeated01 cols: m[1][0] == m[0][0] && m[1][1] == m[0][1] && m[1][2] == m[0][2]
+//@   panics_when [C20] case=repeated01 singular-panics: true
+//@   requires case=repeated02 cols: m[2][0] == m[0][0] && m[2][1] == m[0][1] && m[2][2] == m[0][2]
+//@   panics_when [C20] case=repeated02 singular-panics: true
+//@   requires case=repeated12 cols: m[2][0] == m[1][0] && m[2][1] == m[1][1] && m[2][2] == m[1][2]
+//@   panics_when [C20] case=repeated12 singular-panics: true
+//@   requires case=zero0 col: m[0][0] == 0 && m[0][1] == 0 && m[0][2] == 0
+//@   panics_when [C20] case=zero0 singular-panics: true
+//@   requires case=zero1 col: m[1][0] == 0 && m[1][1] == 0 && m[1][2] == 0
+//@   panics_when [C20] case=zero1 singular-panics: true
+//@   requires case=zero2 col: m[2][0] == 0 && m[2][1] == 0 && m[2][2] == 0
+//@   panics_when [C20] case=zero2 singular-panics: true
